@@ -258,15 +258,17 @@ FireTimer(r, sid) ==
             /\ act' = A("FireTimer", r, 0, sid, "spec", SentBy(W0, rq[r].plan))
        ELSE \* the handler this future registered under (_connection, _req_id) - if it is still there - is removed and the
             \* stream id orphaned; handlers of other executions (speculative, re-sent after a re-prepare) stay registered.
-            \* INTENDED: only the future's own handler.  (The pinned code pops whatever is registered under that id: see
-            \* findings/C09_timeout_pops_handler_of_request_reusing_the_stream_id.py.)
+            \* Only the future's own handler - the EXECUTE's or, when the PREPARE of a re-preparation happens to travel
+            \* under the id the future remembers, the PREPARE's.  (The pinned code popped whatever was registered under
+            \* that id: findings/C09_timeout_pops_handler_of_request_reusing_the_stream_id.py, repaired.)
             /\ sid = 0
             /\ LET c   == rq[r].lc
                    s0  == rq[r].lid
-                   w1  == IF conns[c].open /\ <<s0, r, "X">> \in conns[c].reg
+                   own == {x \in conns[c].reg : x[1] = s0 /\ x[2] = r}
+                   w1  == IF conns[c].open /\ own # {}
                           THEN IF cs.pools[1][conns[c].h] = "open"  \* session._pools.get(current host) and not pool.is_shutdown
-                               THEN [W0 EXCEPT !.cn[c].reg = @ \ {<<s0, r, "X">>}, !.cn[c].orph = @ \cup {s0}]
-                               ELSE [W0 EXCEPT !.cn[c].reg = @ \ {<<s0, r, "X">>}, !.cn[c].tko = @ \cup {s0}]
+                               THEN [W0 EXCEPT !.cn[c].reg = @ \ own, !.cn[c].orph = @ \cup {s0}]
+                               ELSE [W0 EXCEPT !.cn[c].reg = @ \ own, !.cn[c].tko = @ \cup {s0}]
                           ELSE W0                                  \* handler already gone (answered, connection failed, ..)
                IN Commit(Complete(w1, r, "OperationTimedOut"))
             /\ act' = A("FireTimer", r, 0, 0, "to", <<>>)
